@@ -195,13 +195,24 @@ def main(rep):
             for combo in itertools.product(toks, repeat=ln):
                 argv.append(("a%d" % n, "params " + " ".join(hexs(t) for t in combo)))
                 n += 1
+        # pairs of watch roots (equal, nested either way, diverging inside / at the end of a component): the common
+        # parent must be found without reading past the end of the shorter path
+        cpaths = ["/", "/a", "/a/b", "/a/bc", "/a/b/c", "/ab", "/abc/def", "/abc/de", "/abc/def/ghi", "/d", "/a/b/c/d/e", "/" + "x" * 15, "/" + "x" * 15 + "/y"]
+        ncpp = 0
+        for a, b in itertools.product(cpaths, repeat=2):
+            argv.append(("a%d" % n, "cpp %s %s" % (hexs(a), hexs(b))))
+            n += 1
+            ncpp += 1
         total += len(argv)
-        dist["argv"] = len(argv)
+        dist["argv"] = len(argv) - ncpp
+        dist["root_pairs"] = ncpp
         if not found:
             impl, model, problems = vlib.correspond(exe_impl, exe_model, "pure", argv)
             for p in problems:
                 if "implementation driver exited" in p:
-                    rep.violation("memory", {"what": "the sanitizer build died while parsing a command line: %s" % p[-600:]})
+                    culprit = next(((c, t) for c, t in argv if not impl.get(c)), (None, ""))
+                    rep.violation("memory", {"case": culprit[0], "driver": "pure", "script": [culprit[1]],
+                                             "what": "the sanitizer build died while parsing a command line or comparing two watch roots (first input without an answer: %s): %s" % (culprit[1], p[-600:])})
                     found = True
                     break
             if not found:
@@ -225,6 +236,13 @@ def main(rep):
             for b in pool[:3]:
                 margs.append(("m%d" % n, mc.main_case(args=["-w", a, "-e", b], real={"/a": "/a", ".": "/cwd", "/": "/"}, mounted=["/"], slots=[]), ["-w", a, "-e", b]))
                 n += 1
+        # nested and repeated roots, two and three of them
+        for roots in (["/a", "/a/b"], ["/a/b", "/a"], ["/a/b", "/a/b"], ["/a/b", "/a/c", "/a"], ["/a", "/a/b", "/a/b/c"], ["/a/b/c", "/a"]):
+            args = []
+            for r in roots:
+                args += ["-w", r]
+            margs.append(("m%d" % n, mc.main_case(args=args, real={"/a": "/a", "/a/b": "/a/b", "/a/c": "/a/c", "/a/b/c": "/a/b/c", ".": "/cwd", "/": "/"}, mounted=["/"], slots=[]), args))
+            n += 1
         total += len(margs)
         dist["main_argv"] = len(margs)
         if not found:
